@@ -53,25 +53,40 @@ pub fn search(args: &[String]) {
     let mut rng = SplitMix64::new(seed ^ 0x5EA7C4);
     let mut found: Vec<serde_json::Value> = Vec::new();
     let mut tried = 0u64;
-    let mut check = |x: u64, found: &mut Vec<serde_json::Value>| {
+    std::panic::set_hook(Box::new(|_| {}));
+    let check = |x: u64, found: &mut Vec<serde_json::Value>| {
         if found.len() >= 4 {
             return;
         }
-        if int64_hash_inverse(int64_hash(x)) != x {
-            found.push(json!({"width":64, "identity":"inverse(hash(x))=x", "x": x, "got": int64_hash_inverse(int64_hash(x))}));
-        }
-        if int64_hash(int64_hash_inverse(x)) != x {
-            found.push(json!({"width":64, "identity":"hash(inverse(x))=x", "x": x, "got": int64_hash(int64_hash_inverse(x))}));
-        }
+        use std::panic::{catch_unwind, AssertUnwindSafe};
+        let r1 = catch_unwind(AssertUnwindSafe(|| int64_hash_inverse(int64_hash(x))));
+        match r1 { Ok(v) => if v != x { found.push(json!({"width":64, "identity":"inverse(hash(x))=x", "x": x, "got": v})); },
+                   Err(_) => found.push(json!({"width":64, "identity":"inverse(hash(x))=x", "x": x, "got": -1, "panic": true})) }
+        let r2 = catch_unwind(AssertUnwindSafe(|| int64_hash(int64_hash_inverse(x))));
+        match r2 { Ok(v) => if v != x { found.push(json!({"width":64, "identity":"hash(inverse(x))=x", "x": x, "got": v})); },
+                   Err(_) => found.push(json!({"width":64, "identity":"hash(inverse(x))=x", "x": x, "got": -1, "panic": true})) }
         let y = x as u32;
-        if int32_hash_inverse(int32_hash(y)) != y {
-            found.push(json!({"width":32, "identity":"inverse(hash(x))=x", "x": y, "got": int32_hash_inverse(int32_hash(y))}));
-        }
-        if int32_hash(int32_hash_inverse(y)) != y {
-            found.push(json!({"width":32, "identity":"hash(inverse(x))=x", "x": y, "got": int32_hash(int32_hash_inverse(y))}));
-        }
+        let r3 = catch_unwind(AssertUnwindSafe(|| int32_hash_inverse(int32_hash(y))));
+        match r3 { Ok(v) => if v != y { found.push(json!({"width":32, "identity":"inverse(hash(x))=x", "x": y, "got": v})); },
+                   Err(_) => found.push(json!({"width":32, "identity":"inverse(hash(x))=x", "x": y, "got": -1, "panic": true})) }
+        let r4 = catch_unwind(AssertUnwindSafe(|| int32_hash(int32_hash_inverse(y))));
+        match r4 { Ok(v) => if v != y { found.push(json!({"width":32, "identity":"hash(inverse(x))=x", "x": y, "got": v})); },
+                   Err(_) => found.push(json!({"width":32, "identity":"hash(inverse(x))=x", "x": y, "got": -1, "panic": true})) }
     };
-    for x in structured64() {
+    // structured values, and their images under the four functions (where an intermediate value is 0 or all-ones)
+    let mut st = structured64();
+    {
+        use std::panic::{catch_unwind, AssertUnwindSafe};
+        let base = st.clone();
+        for x in base {
+            for f in 0..4 {
+                if let Ok(v) = catch_unwind(AssertUnwindSafe(|| match f { 0 => int64_hash(x), 1 => int64_hash_inverse(x), 2 => int32_hash(x as u32) as u64, _ => int32_hash_inverse(x as u32) as u64 })) {
+                    st.push(v);
+                }
+            }
+        }
+    }
+    for x in st {
         check(x, &mut found);
         tried += 1;
     }
